@@ -143,7 +143,7 @@ func destPath(addr ssa.Value, depth int) string {
 }
 
 func c20(c *core.Ctx) {
-	c.Explain("C20 (statistics): decided statically — R1 in every updating method of statsManager each update of a global counter has a twin on the same per-client field with the same delta in the same branch (mirror rule), R2 the copy functions of the statistics structures copy every field, R3 PacketStats.add bumps, for each of the 15 packet types, exactly that type's field and Total in both the byte and the count structure, R4 the queue notifier maps a positive delta to add…(delta) and a negative one to dec…(−delta) for both gauges, R5 every packet written or read is booked on every path (packetSent after each successful write including a server DISCONNECT, packetReceived after each packet handed to the handlers), messageReceived/messageSent are called for every PUBLISH with its own QoS, every dropped PUBLISH reaches messageDropped with its own QoS, and connect/disconnect bookkeeping is paired.")
+	c.Explain("C20 (statistics): decided statically — R1 in every updating method of statsManager each update of a global counter has a twin on the same per-client field with the same delta in the same branch (mirror rule), R2 the copy functions of the statistics structures copy every field, R3 PacketStats.add bumps, for each of the 15 packet types, exactly that type's field and Total in both the byte and the count structure, R4 the queue notifier maps a positive delta to add…(delta) and a negative one to dec…(−delta) for both gauges, R5 every packet written or read is booked on every path (packetSent after each successful write including a server DISCONNECT, packetReceived after each packet handed to the handlers), messageReceived/messageSent are called for every PUBLISH with its own QoS, every dropped PUBLISH reaches messageDropped with its own QoS, and connect/disconnect bookkeeping is paired. Added in the second round: The gauges move by the delta they are given.")
 	c.NotDecided("equality with ground truth at quiescence over histories, absence of wrap below zero (guards are runtime-valued)")
 	p := c.P
 	fl := ssax.NewFlow()
@@ -244,6 +244,9 @@ func c20(c *core.Ctx) {
 			call, ok := in.(*ssa.Call)
 			if !ok || ssax.ResolveCallee(&call.Call).Name != "sync/atomic.AddUint64" {
 				return
+			}
+			if len(statPaths(call.Call.Args[0], getCS, 0)) == 0 {
+				return // not a statistics gauge (e.g. a private debug counter)
 			}
 			k++
 			if !ssax.AnyIn(ssax.Backward(call.Call.Args[1]), func(v ssa.Value) bool { return v == delta }) {
